@@ -20,6 +20,28 @@ one dictionary object reused unchanged, and one dictionary edited in place betwe
 outcome of an operation is a function of (class, dictionary contents): every step must equal the same
 operation done first on a freshly built copy of the family with a fresh, equal dictionary, the union
 over the class's OWN members asked alone, and the model's answer.  Counts: coverage.histories.
+
+Value kinds (every tier, see RICH_BASE / lookalikes / value_cases / rich_val): the option dictionaries hold every
+kind of value a Python caller can put there and that `==` / `repr` tell apart - tuples (empty, nested, holding lists /
+dicts), namedtuples (two types with equal items), lists against tuples with equal items, sets / frozensets, bytes
+against str, floats (`1.0` / `1` / `True`, `0.0` / `-0.0` / `0` / `False`, inf), ints beyond 2**53, `None` against a
+missing key, containers nesting these, user objects with their own `__eq__` / `__repr__` (`Tag`: equal regardless of case;
+`Box`: mutable, holds a sequence) - under plain keys, dotted keys, inside a section read as a whole, inside lists, as
+defaults and as plain members.  A directed family pairs every base value with an equal copy and with each of its
+look-alikes (same items in another container type, same number in another type, ...); a random stream builds classes
+over dictionaries of such values; the histories run a second time over such dictionaries, edited with look-alikes.
+The oracle is the property's and is computed here, independently of labrea: `repr(instance)`, read back as Python
+reads it, is `Name(<the options restricted to the reported keys>)` with the SAME TYPES throughout ((1, 5) is not [1, 5],
+1 is not True, 0.0 is not -0.0); `a == b` is Python's `==` on the two restricted dictionaries ((1, 5) != [1, 5], 1 == True,
+Point(1, 5) == (1, 5) - as Python says); an instance keeps a snapshot (the caller editing lists / sets / Boxes inside the
+values afterwards changes neither).  VALUES OUTSIDE THE MODEL: LabreaModel/Value.lean has None, booleans, integers, strings,
+one sequence type and dictionaries, and no cross-type equality; a case or history step whose dictionaries or defaults hold
+a tuple, namedtuple, set, frozenset, bytes, float, big int, user object or the ints 0 / 1 is not sent to drv_dsclass and is
+judged by this oracle alone (coverage.values_outside_the_model; counts per kind: coverage.value_kinds).
+Observed on the way and NOT judged here (they concern @dataset's cache, not the dataset class; coverage.
+observed_outside_this_property): the cache files results under the JSON text of the options, so (1, 5) and [1, 5] share
+an entry - attributes of dataset members in history steps where that shows are left out (histories.cache_lookalike_steps) -
+and a dataset member cannot be evaluated when a key it reads holds a set / bytes / user object.
 """
 import sys
 from pathlib import Path
@@ -48,7 +70,9 @@ SPEC = PropSpec(
         "reported keys are non-empty, contain no index segment (all-digit) and are present in the options "
         "(`Present`); shown necessary in Lean (repr_options_side_conditions_needed); concrete Option/dataset "
         "members satisfy presence by theorem concrete_present",
-        "option values are JSON without template braces; ints other than 0/1 (Python's True == 1 is not modelled)",
+        "the MODEL reads option values that are JSON without template braces, ints other than 0/1 (Python's True == 1 is not "
+        "modelled); dictionaries holding tuples, namedtuples, sets, frozensets, bytes, floats, ints beyond 2**53, user objects "
+        "or 0/1 are judged on the implementation by the property oracle alone (coverage.values_outside_the_model)",
         "abstract members are functions of the options only (no hidden state); dataset caches are value-transparent",
         "`isinstance(other, self.__class__)` is modelled as 'same class' (instances of one class are compared; "
         "a twin class with identical members compares unequal)",
@@ -56,24 +80,99 @@ SPEC = PropSpec(
 )
 
 # ----------------------------------------------------------------------------- wire codec
-# values: None | bool | int | str | {"l": [...]} | {"d": [[k, v], ...]}   (dicts keep their order)
-CODEC = r'''
+# values: None | bool | int | str | {"l": [...]} | {"d": [[k, v], ...]}   (dicts keep their order)    - what the model reads
+#       | {"t": [...]} tuple | {"nt": [type name, [...]]} namedtuple | {"s": [...]} set | {"fs": [...]} frozenset (members
+#         in a canonical order) | {"b": hex} bytes | {"f": repr} float | {"big": digits} int beyond 2**53
+#       | {"u": ["Tag", label]} / {"u": ["Box", items]} user objects with their own __eq__ / __repr__
+# The encoding is faithful on this universe: two values have the same encoding (dict order aside) exactly when Python
+# prints them alike and they are of the same types throughout.
+CODEC = r"""
+import collections as _coll
+Point = _coll.namedtuple("Point", "x y")
+Span = _coll.namedtuple("Span", "lo hi")
+NAMEDTUPLES = {"Point": Point, "Span": Span}
+
+class Tag:
+    # a user value: equality ignores the case of the label, repr shows the label as given
+    def __init__(self, label):
+        self.label = label
+    def __eq__(self, other):
+        return isinstance(other, Tag) and self.label.lower() == other.label.lower()
+    def __ne__(self, other):
+        return not self == other
+    def __hash__(self):
+        return hash(self.label.lower())
+    def __repr__(self):
+        return "Tag(%r)" % (self.label,)
+
+class Box:
+    # a mutable user value holding a sequence; equal when the items are equal
+    def __init__(self, items):
+        self.items = items
+    def __eq__(self, other):
+        return isinstance(other, Box) and self.items == other.items
+    def __ne__(self, other):
+        return not self == other
+    __hash__ = None
+    def __repr__(self):
+        return "Box(%r)" % (self.items,)
+
+def _members(v):
+    import json as _json
+    return sorted((enc(x) for x in v), key=lambda j: _json.dumps(j, sort_keys=True))
+
 def enc(v):
-    if v is None or isinstance(v, (bool, int, str)):
+    if v is None or isinstance(v, (bool, str)):
         return v
-    if isinstance(v, (list, tuple)):
-        return {"l": [enc(x) for x in v]}      # (a tuple constant travels as a list: the model has one sequence type)
+    if isinstance(v, int):
+        return v if abs(v) < 2 ** 53 else {"big": str(v)}
+    if isinstance(v, float):
+        return {"f": repr(v)}
+    if isinstance(v, bytes):
+        return {"b": v.hex()}
+    if isinstance(v, list):
+        return {"l": [enc(x) for x in v]}
+    if isinstance(v, tuple):
+        if type(v) is not tuple:
+            return {"nt": [type(v).__name__, [enc(x) for x in v]]}
+        return {"t": [enc(x) for x in v]}
+    if isinstance(v, frozenset):
+        return {"fs": _members(v)}
+    if isinstance(v, set):
+        return {"s": _members(v)}
     if isinstance(v, dict):
         return {"d": [[k, enc(x)] for k, x in v.items()]}
+    if isinstance(v, Tag):
+        return {"u": ["Tag", v.label]}
+    if isinstance(v, Box):
+        return {"u": ["Box", enc(v.items)]}
     return {"weird": type(v).__name__}
 
 def dec(j):
     if isinstance(j, dict):
         if "l" in j:
             return [dec(x) for x in j["l"]]
-        return {k: dec(x) for k, x in j["d"]}
+        if "d" in j:
+            return {k: dec(x) for k, x in j["d"]}
+        if "t" in j:
+            return tuple(dec(x) for x in j["t"])
+        if "nt" in j:
+            return NAMEDTUPLES[j["nt"][0]](*[dec(x) for x in j["nt"][1]])
+        if "s" in j:
+            return set(dec(x) for x in j["s"])
+        if "fs" in j:
+            return frozenset(dec(x) for x in j["fs"])
+        if "b" in j:
+            return bytes.fromhex(j["b"])
+        if "f" in j:
+            return float(j["f"])
+        if "big" in j:
+            return int(j["big"])
+        if "u" in j:
+            return Tag(j["u"][1]) if j["u"][0] == "Tag" else Box(dec(j["u"][1]))
+        raise ValueError("cannot decode %r" % (j,))
     return j
-'''
+"""
 exec(CODEC, globals())
 
 # ----------------------------------------------------------------------------- implementation runner
@@ -178,25 +277,41 @@ def outcome(f, ok=lambda x: x):
     except Exception as e:
         return {"err": canon_exc(e)}
 
+def editable(x):
+    """something inside x can be edited in place by the caller who still holds it"""
+    if isinstance(x, (dict, list, set, Box)):
+        return True
+    if isinstance(x, (tuple, frozenset)):
+        return any(editable(y) for y in x)
+    return False
+
 def scribble(x):
+    """the caller goes on writing into every editable part of a value it handed over"""
     if isinstance(x, dict):
         for k in list(x):
-            if isinstance(x[k], (dict, list)):
+            if editable(x[k]):
                 scribble(x[k])
             else:
                 x[k] = "scribbled"
         x["scribbled-key"] = 1
     elif isinstance(x, list):
         for i in range(len(x)):
-            if isinstance(x[i], (dict, list, tuple)):
+            if editable(x[i]):
                 scribble(x[i])
             else:
                 x[i] = "scribbled"
         x.append("scribbled")
-    elif isinstance(x, tuple):
+    elif isinstance(x, (tuple, frozenset)):
         for y in x:
-            if isinstance(y, (dict, list, tuple)):
+            if editable(y):
                 scribble(y)
+    elif isinstance(x, set):
+        x.add("scribbled")
+    elif isinstance(x, Box):
+        if editable(x.items):
+            scribble(x.items)
+        else:
+            x.items = "scribbled"
 
 def run(case):
     name = case["name"]
@@ -286,7 +401,7 @@ def run(case):
                 a = C(dec(case["o" + j]))
                 for n in consts:
                     v = getattr(a, n)
-                    if isinstance(v, (dict, list, tuple)):
+                    if editable(v):
                         scribble(v)
                 c = C(dec(case["o" + j]))
                 bad = [[n, enc(getattr(c, n)), consts[n]] for n in sorted(consts) if enc(getattr(c, n)) != consts[n]]
@@ -470,8 +585,137 @@ def flatten(case):
     return [[n, d[n]] for n in d]
 
 
+# ---- value kinds, and which of them the model can read
+# The Lean model (LabreaModel/Value.lean) has None, booleans, integers, strings, ONE sequence type and dictionaries; its
+# equality does not identify True with 1.  Everything else a caller can put into an options dictionary is OUTSIDE THE MODEL:
+# a case / history step holding such a value is judged by the property oracle alone (coverage.values_outside_the_model).
+OUTSIDE_KINDS = ("tuple", "namedtuple", "set", "frozenset", "bytes", "float", "bigint", "user:Tag", "user:Box", "int01")
+
+
+def kinds_in(j, out=None):
+    """the value kinds occurring in a wire value (a Counter)"""
+    out = Counter() if out is None else out
+    if j is None:
+        out["none"] += 1
+    elif isinstance(j, bool):
+        out["bool"] += 1
+    elif isinstance(j, int):
+        out["int01" if j in (0, 1) else "int"] += 1
+    elif isinstance(j, str):
+        out["str"] += 1
+    elif "l" in j or "t" in j or "s" in j or "fs" in j:
+        tag = next(t for t in ("l", "t", "s", "fs") if t in j)
+        out[{"l": "list", "t": "tuple", "s": "set", "fs": "frozenset"}[tag]] += 1
+        if tag in ("l", "t") and not j[tag]:
+            out["empty-" + ("list" if tag == "l" else "tuple")] += 1
+        for x in j[tag]:
+            kinds_in(x, out)
+    elif "nt" in j:
+        out["namedtuple"] += 1
+        for x in j["nt"][1]:
+            kinds_in(x, out)
+    elif "d" in j:
+        out["dict"] += 1
+        for _, x in j["d"]:
+            kinds_in(x, out)
+    elif "b" in j:
+        out["bytes"] += 1
+    elif "f" in j:
+        out["float"] += 1
+    elif "big" in j:
+        out["bigint"] += 1
+    elif "u" in j:
+        out["user:" + j["u"][0]] += 1
+        if j["u"][0] == "Box":
+            kinds_in(j["u"][1], out)
+    return out
+
+
+def outside_model(j):
+    ks = kinds_in(j)
+    return any(ks[k] for k in OUTSIDE_KINDS)
+
+
+def seq_as_list(j):
+    """tuples as the model's one sequence type (for plain members: a tuple CONSTANT is within the model)"""
+    if isinstance(j, dict):
+        if "t" in j:
+            return {"l": [seq_as_list(x) for x in j["t"]]}
+        if "l" in j:
+            return {"l": [seq_as_list(x) for x in j["l"]]}
+        if "d" in j:
+            return {"d": [[k, seq_as_list(x)] for k, x in j["d"]]}
+    if isinstance(j, list):
+        return [seq_as_list(x) for x in j]
+    return j
+
+
+def model_spec(s):
+    if s["k"] == "const":
+        return dict(s, v=seq_as_list(s["v"]))
+    return s
+
+
+def spec_outside_model(s):
+    if s["k"] == "const":
+        return outside_model(seq_as_list(s["v"]))
+    if s["k"] == "opt":
+        return "d" in s and outside_model(s["d"])
+    return any("d" in a and outside_model(a["d"]) for a in s["args"])
+
+
+def case_outside_model(case):
+    return (outside_model(case["o1"]) or outside_model(case["o2"])
+            or any(spec_outside_model(s) for _, s in flatten(case)))
+
+
+def model_view(obs):
+    """the implementation's observations as the model words them: a tuple-valued plain member shows as a sequence"""
+    if isinstance(obs, dict):
+        if "t" in obs and len(obs) == 1:
+            return {"l": [model_view(x) for x in obs["t"]]}
+        return {k: model_view(v) for k, v in obs.items()}
+    if isinstance(obs, list):
+        return [model_view(x) for x in obs]
+    return obs
+
+
+def canon_wire(j):
+    """wire value with every dictionary's items sorted (dictionaries compare regardless of order)"""
+    if isinstance(j, dict):
+        if "d" in j:
+            return {"d": sorted([k, canon_wire(x)] for k, x in j["d"])}
+        return {k: canon_wire(v) for k, v in j.items()}
+    if isinstance(j, list):
+        return [canon_wire(x) for x in j]
+    return j
+
+
+def same(a, b):
+    """the two values print alike: equal AND of the same types throughout (1 is not True is not 1.0, (1, 5) is not [1, 5],
+    0.0 is not -0.0, Tag('Ab') is not Tag('ab')); dictionaries regardless of order"""
+    return canon_wire(enc(a)) == canon_wire(enc(b))
+
+
+EVAL_NS = {"__builtins__": {}, "Point": Point, "Span": Span, "Tag": Tag, "Box": Box, "inf": float("inf"),
+           "set": set, "frozenset": frozenset}
+
+
+def shown_options(r, name):
+    """the dictionary that `repr(instance)` = `Name({...})` prints, read back as Python reads it; None if it is not of that form"""
+    head = name + "("
+    if not (isinstance(r, str) and r.startswith(head) and r.endswith(")")):
+        return None
+    try:
+        v = eval(r[len(head):-1], dict(EVAL_NS))
+    except Exception:
+        return None
+    return v if isinstance(v, dict) else None
+
+
 def model_line(case):
-    return json.dumps({"name": case["name"], "members": flatten(case), "o1": case["o1"], "o2": case["o2"]})
+    return json.dumps({"name": case["name"], "members": [[n, model_spec(s)] for n, s in flatten(case)],
+                       "o1": case["o1"], "o2": case["o2"]})
 
 
 def run_impl(cases):
@@ -486,10 +730,13 @@ def run_impl(cases):
 
 
 def run_model(cases):
-    lines = run_driver("drv_dsclass", [model_line(c) for c in cases])
-    if len(lines) != len(cases):
-        raise Infra(f"driver produced {len(lines)} lines for {len(cases)} cases")
-    return [json.loads(l) for l in lines]
+    """the model's answers; None for a case holding values the model cannot represent"""
+    inside = [c for c in cases if not case_outside_model(c)]
+    lines = run_driver("drv_dsclass", [model_line(c) for c in inside]) if inside else []
+    if len(lines) != len(inside):
+        raise Infra(f"driver produced {len(lines)} lines for {len(inside)} cases")
+    it = iter(lines)
+    return [None if case_outside_model(c) else json.loads(next(it)) for c in cases]
 
 
 # ----------------------------------------------------------------------------- property oracle
@@ -584,8 +831,8 @@ def oracle(case, res):
                 problems.append(f"reported key under {e} is not present in o{j}")
                 continue
             restricted[j] = R
-            rd = extra["reprdict" + j]
-            if rd is None or dec(rd) != R or not inst["repr"].startswith(case["name"] + "("):
+            shown = shown_options(inst["repr"], case["name"])
+            if shown is None or not same(shown, R):
                 problems.append(f"repr of instance {j} is {inst['repr']!r}, restricted options are {R!r}")
     if "1" in restricted and "2" in restricted and obs["eq"] is not None:
         want = restricted["1"] == restricted["2"]
@@ -713,6 +960,165 @@ def gen_val(rng, depth=0):
     return {k: gen_val(rng, depth + 1) for k in rng.sample(["X", "Y", "P", "k"], rng.randint(0, 3))}
 
 
+# ---- every kind of value a Python caller can put into an options dictionary and that == / repr tell apart
+BIG = 2 ** 64 + 1
+RICH_LEAVES = [1, 0, True, False, 1.0, 0.0, -0.0, 2.5, float("inf"), -3, 7, BIG, -(10 ** 30), None, "s", "", "Ab", "ab",
+               b"ab", b"", ("Tag", "Ab"), ("Tag", "ab"), ("Tag", "s")]
+HASHABLE = [1, True, 2, 1.0, "s", "Ab", b"ab", (1, 5), (), ("Tag", "Ab"), frozenset([2, 3]), None, BIG]
+
+
+def leaf_(x):
+    return Tag(x[1]) if isinstance(x, tuple) and len(x) == 2 and x[0] == "Tag" else x
+
+
+def rich_val(rng, depth=0):
+    """a value of any kind: scalars of every type, tuples / namedtuples / lists / dicts nested in one another, sets,
+    frozensets, bytes, user objects; a third of the time one of the JSON values the plain generator makes"""
+    r = rng.random()
+    if r < 0.3:
+        return gen_val(rng, depth)
+    if depth >= 2 or r < 0.5:
+        return leaf_(rng.choice(RICH_LEAVES))
+    if r < 0.64:
+        return tuple(rich_val(rng, depth + 1) for _ in range(rng.randint(0, 3)))
+    if r < 0.72:
+        return [rich_val(rng, depth + 1) for _ in range(rng.randint(0, 3))]
+    if r < 0.80:
+        return {k: rich_val(rng, depth + 1) for k in rng.sample(["X", "Y", "P", "k"], rng.randint(1, 3))}
+    if r < 0.87:
+        return rng.choice([Point, Span])(rich_val(rng, depth + 1), rich_val(rng, depth + 1))
+    if r < 0.94:
+        items = [leaf_(x) for x in rng.sample(HASHABLE, rng.randint(0, 3))]
+        return rng.choice([set, frozenset])(items)
+    return Box(rng.choice([list, tuple])(rich_val(rng, depth + 1) for _ in range(rng.randint(0, 2))))
+
+
+def is_namedtuple(v):
+    return isinstance(v, tuple) and type(v) is not tuple
+
+
+def lookalikes(v):
+    """values that resemble v - equal items in another container type, the same number as another type, the same text
+    as another type, ... ; Python's == and repr decide which of them ARE equal / print alike (never KeyError, never v itself)"""
+    if v is KeyError:
+        return []
+    out = []
+    if isinstance(v, bool):
+        out += [int(v), float(v)]
+    elif isinstance(v, int):
+        if v in (0, 1):
+            out += [bool(v)]
+        out += [float(v)] if abs(v) < 2 ** 53 else [v + 1, -v]
+    elif isinstance(v, float):
+        if v == v and abs(v) < 2 ** 53:
+            if v == int(v):
+                out += [int(v)]
+            if v == 0:
+                out += [-v]
+            if v == 1:
+                out += [True]
+        else:
+            out += [-v]
+    elif isinstance(v, str):
+        out += [v.encode(), Tag(v), v.swapcase()] if v and v.swapcase() != v else [v.encode(), Tag(v)]
+    elif isinstance(v, bytes):
+        out += [v.decode()]
+    elif v is None:
+        out += ["None", False]
+    elif is_namedtuple(v):
+        out += [tuple(v), list(v), (Span if isinstance(v, Point) else Point)(*v)]
+    elif isinstance(v, tuple):
+        out += [list(v)] + ([Point(*v)] if len(v) == 2 else [])
+    elif isinstance(v, list):
+        out += [tuple(v)] + ([Span(*v)] if len(v) == 2 else [])
+    elif isinstance(v, frozenset):
+        out += [set(v)]
+    elif isinstance(v, set):
+        out += [frozenset(v), [dec(j) for j in enc(v)["s"]]]
+    elif isinstance(v, Tag):
+        out += [Tag(v.label.swapcase()), v.label]
+    elif isinstance(v, Box):
+        out += [Box(w) for w in lookalikes(v.items)[:2]] + [copy.deepcopy(v.items)]
+    # one level down: the same container holding a look-alike of one of its items
+    if isinstance(v, (list, tuple)) and not is_namedtuple(v):
+        for i, x in enumerate(v):
+            la = lookalikes(x)
+            if la:
+                out.append(type(v)(list(v[:i]) + [la[0]] + list(v[i + 1:])))
+                break
+    elif is_namedtuple(v):
+        for i, x in enumerate(v):
+            la = lookalikes(x)
+            if la:
+                out.append(type(v)(*(list(v[:i]) + [la[0]] + list(v[i + 1:]))))
+                break
+    elif isinstance(v, dict):
+        for k, x in v.items():
+            for w in lookalikes(x)[:2]:
+                d = copy.deepcopy(v)
+                d[k] = w
+                out.append(d)
+        if v:
+            out.append(list(v.items()))
+    return [copy.deepcopy(w) for w in out]
+
+
+RICH_BASE = [
+    (1, 5), [1, 5], (), [], ((1, 2), 5), ([1, 2], {"k": (3,)}), [(1, 2), [3, (4,)]], (1,), Point(1, 5), Span(1, 5),
+    Point((1, 2), [3]), {"k": (1, 5), "n": Point(2, 3)}, {1, 2}, frozenset([1, 2]), set(), frozenset(), {"s", (1, 5)},
+    b"ab", b"", "ab", 1, True, 1.0, 0, False, 0.0, -0.0, 2.5, float("inf"), BIG, -(10 ** 30), 2 ** 53, None,
+    [None], {"k": None}, (None,), Tag("Ab"), [Tag("ab")], (Tag("s"), 1), Box([1, 5]), Box((1, 5)), Box([(1, 2), {"k": [3]}]),
+    [1, (True, 1.0), {"k": {2, 3}}, b"x"], {"X": {"Y": (1, [2, (3,)])}},
+]
+
+PLACEMENTS = [
+    # (label, own members, options around the value, base members)
+    ("plain-key", lambda: [("w", opt("W"))], lambda v: {"W": v, "Z": 5}),
+    ("dotted-key", lambda: [("g", opt("G.O"))], lambda v: {"G": {"O": v, "STEP": 9}}),
+    ("section-read-whole", lambda: [("g", opt("G"))], lambda v: {"G": {"O": v, "N": [2, v]}, "Z": (1, 5)}),
+    ("in-a-list+dataset", lambda: [("zed", opt("W")), ("d", ds(opt("G.O"), opt("Q", 3, True)))],
+     lambda v: {"W": [2, v, "s"], "G": {"O": {"k": v}}}),
+    ("prefix-overlap", lambda: [("a", opt("G")), ("b", opt("G.O")), ("c", const((2, [3])))], lambda v: {"G": {"O": v, "P": 2}}),
+    ("deep-dotted+default", lambda: [("u", opt("S.T.U")), ("q", opt("Q", (1, 5), True))], lambda v: {"S": {"T": {"U": v, "V": [v]}}}),
+]
+
+
+def value_cases(seed):
+    """the directed family over value kinds: every base value against itself (an equal copy) and against each of its
+    look-alikes (under a plain key or a dotted key, alternating, and under one further placement, rotating with the seed);
+    also absent-versus-None"""
+    cs, n = [], 0
+    for bi, v in enumerate(RICH_BASE):
+        for wi, w in enumerate([copy.deepcopy(v)] + lookalikes(v)):
+            places = [(bi + wi + seed) % 2, 2 + (bi + wi + seed) % 4] if wi else [(bi + seed) % 6]
+            for pi in sorted(set(places)):
+                label, own, around = PLACEMENTS[pi]
+                o1, o2 = around(copy.deepcopy(v)), around(copy.deepcopy(w))
+                if (n + seed) % 2:
+                    o1, o2 = o2, o1
+                if (n + seed) % 5 == 0:
+                    o2["ZZ"] = copy.deepcopy(v)           # an irrelevant key holding the value
+                inh, base, members = "plain", (), own()
+                if n % 4 == 3 and len(members) > 1:
+                    base, members, inh = members[:1], members[1:], ["dcsub", "dcboth", "plain"][(n // 4) % 3]
+                c = case_(members, o1, o2, base=base, build="exec" if n % 3 == 2 else "type", inherit=inh, name="V%d" % (n % 5))
+                c["kind"] = "value:" + ("copy" if wi == 0 else "look-alike")
+                c["placement"] = label
+                c["pair"] = [type(v).__name__, type(w).__name__]
+                cs.append(c)
+                n += 1
+    # None versus missing, under a key with a default and without
+    for own in ([("a", opt("A", None, True))], [("a", opt("A.X", None, True))], [("a", opt("A"))]):
+        key = own[0][1]["key"]
+        o1, o2 = {}, {}
+        set_nested(o1, key, None)
+        if "." in key:
+            o2 = {"A": {}}
+        cs.append(dict(case_(own, o1, o2, name="V0"), kind="value:none-vs-missing", placement="plain-key" if "." not in key else "dotted-key",
+                       pair=["NoneType", "missing"]))
+    return cs
+
+
 def set_nested(o, key, v):
     segs = key.split(".")
     for s in segs[:-1]:
@@ -722,17 +1128,18 @@ def set_nested(o, key, v):
     o[segs[-1]] = v
 
 
-def gen_options(rng, keys):
+def gen_options(rng, keys, val=None):
+    val = val or gen_val
     o = {}
     ks = list(keys)
     rng.shuffle(ks)
     for k in ks:
         if rng.random() < 0.93:
-            set_nested(o, k, gen_val(rng))
+            set_nested(o, k, val(rng))
     for k in rng.sample(["Z", "W", "A.W", "S.T.V", "S.W", "B.W"], rng.randint(0, 3)):
         if rng.random() < 0.8:
             try:
-                set_nested(o, k, gen_val(rng))
+                set_nested(o, k, val(rng))
             except Exception:
                 pass
     if rng.random() < 0.06 and ks:     # a scalar where a section is expected
@@ -767,16 +1174,31 @@ def reorder(rng, o):
     return o
 
 
-def perturb(rng, o1, keys):
+def perturb(rng, o1, keys, val=None):
     """o2 from o1; returns (o2, kind)"""
     o2 = copy.deepcopy(o1)
-    kind = rng.choice(["same", "irrelevant", "relevant", "order", "missing", "scalar", "independent", "relevant", "irrelevant"])
+    kinds = ["same", "irrelevant", "relevant", "order", "missing", "scalar", "independent", "relevant", "irrelevant"]
+    if val is not None:
+        kinds += ["twin", "twin", "twin", "twin-irrelevant"]
+    val = val or gen_val
+    kind = rng.choice(kinds)
     present = [k for k in keys if k in paths_of(o1)]
-    if kind == "irrelevant":
-        set_nested(o2, rng.choice(["Z", "W", "A.W", "S.T.V"]) if rng.random() < 0.9 else "Z", gen_val(rng))
+    if kind == "twin" and present:          # a look-alike under a reported key: (1, 5) for [1, 5], True for 1, ...
+        ks = [k for k in present if lookalikes(get_nested(o1, k))]
+        if ks:
+            k = rng.choice(ks)
+            set_nested(o2, k, rng.choice(lookalikes(get_nested(o1, k))))
+    elif kind == "twin-irrelevant":         # a look-alike somewhere the class does not read
+        ps = [q for q in paths_of(o1) if not any(q == k or q.startswith(k + ".") or k.startswith(q + ".") for k in keys)
+              and lookalikes(get_nested(o1, q))]
+        if ps:
+            q = rng.choice(ps)
+            set_nested(o2, q, rng.choice(lookalikes(get_nested(o1, q))))
+    elif kind == "irrelevant":
+        set_nested(o2, rng.choice(["Z", "W", "A.W", "S.T.V"]) if rng.random() < 0.9 else "Z", val(rng))
     elif kind == "relevant" and present:
         k = rng.choice(present)
-        set_nested(o2, k, gen_val(rng))
+        set_nested(o2, k, val(rng))
     elif kind == "order":
         o2 = reorder(rng, o2)
     elif kind == "missing" and present:
@@ -785,43 +1207,44 @@ def perturb(rng, o1, keys):
         k = rng.choice(present)
         o2[k.split(".")[0]] = rng.choice([5, "str", [2]])
     elif kind == "independent":
-        o2 = gen_options(rng, keys)
+        o2 = gen_options(rng, keys, val)
     return o2, kind
 
 
-def gen_member(rng):
+def gen_member(rng, val=None):
+    val = val or gen_val
     r = rng.random()
     if r < 0.55:
         k = rng.choice(KEY_POOL)
         if rng.random() < 0.35:
-            return opt(k, gen_val(rng, 1), True)
+            return opt(k, val(rng, 1), True)
         return opt(k)
     if r < 0.75:
-        c = const(gen_val(rng))
+        c = const(val(rng))
         if isinstance(c["v"], dict) and "l" in c["v"] and rng.random() < 0.4:
-            c["tup"] = True
+            c["v"] = {"t": c["v"]["l"]}       # the constant is a tuple (immutable itself, its elements need not be)
         return c
     args = []
     for _ in range(rng.randint(0, 3)):
         k = rng.choice(KEY_POOL)
-        args.append(opt(k, gen_val(rng, 1), True) if rng.random() < 0.35 else opt(k))
+        args.append(opt(k, val(rng, 1), True) if rng.random() < 0.35 else opt(k))
     return ds(*args)
 
 
-def gen_case(rng, n):
+def gen_case(rng, n, val=None):
     names = rng.sample(NAME_POOL, rng.randint(1, 5))
     build = rng.choice(["type", "type", "exec"])
-    members = [(nm, gen_member(rng), rng.random() < 0.7) for nm in names]
+    members = [(nm, gen_member(rng, val), rng.random() < 0.7) for nm in names]
     if build == "type" and rng.random() < 0.1:
         members.append(("__hid", opt(rng.choice(KEY_POOL)), False))
     nb = rng.choice([0, 0, 1, 2]) if len(members) > 1 else 0
     base, own = members[:nb], members[nb:]
     if base and rng.random() < 0.4:        # an override of an inherited member
-        own.append((base[0][0], gen_member(rng), rng.random() < 0.5))
+        own.append((base[0][0], gen_member(rng, val), rng.random() < 0.5))
     c = case_(own, {}, {}, base=base, build=build, inherit=rng.choice(["plain", "dcsub", "dcboth"]), name="C%d" % (n % 7))
     keys = class_option_keys(c)
-    o1 = gen_options(rng, keys)
-    o2, kind = perturb(rng, o1, keys)
+    o1 = gen_options(rng, keys, val)
+    o2, kind = perturb(rng, o1, keys, val)
     c["o1"], c["o2"] = enc(o1), enc(o2)
     c["kind"] = kind
     return c
@@ -881,7 +1304,8 @@ def shrink(case, failing, rounds=8):
 
 def corr_failing(cases):
     impl, model = run_impl(cases), run_model(cases)
-    return ["runner_error" not in i and "driver_error" not in m and i["obs"] != m for i, m in zip(impl, model)]
+    return ["runner_error" not in i and m is not None and "driver_error" not in m and model_view(i["obs"]) != m
+            for i, m in zip(impl, model)]
 
 
 def oracle_failing(cases):
@@ -1030,14 +1454,15 @@ def gen_family(rng, shape, n):
     return family_("random-%s-%d" % (shape, n), shape, classes, deco, build)
 
 
-def full_options(rng, keys):
+def full_options(rng, keys, val=None):
     """every key present (prefixes first, so that a deeper key turns its section into a dictionary)"""
+    val = val or gen_val
     o = {}
     for k in sorted(keys, key=lambda k: (k.count("."), k)):
-        v = gen_val(rng)
+        v = val(rng)
         set_nested(o, k, v)
     for k in rng.sample(IRRELEVANT, rng.randint(1, 2)):
-        set_nested(o, k, gen_val(rng))
+        set_nested(o, k, val(rng))
     return o
 
 
@@ -1060,6 +1485,12 @@ def pick_edit(rng, fc, seq, kind, o, allkeys, vals=()):
     `vals`: the family's few edit values (tried first, so that the histories of one family meet the same contents)"""
     y, x0 = seq[-1], seq[0]
     ky, kx = fam_keys(fc, y), fam_keys(fc, x0)
+    if kind == "twin":           # a look-alike of the value now under one of the last class's keys
+        ks = [k for k in ky if lookalikes(get_nested(o, k))]
+        if ks:
+            key = rng.choice(leafy(ks, allkeys))
+            return key, rng.choice(lookalikes(get_nested(o, key)))
+        kind = "added"
     if kind == "irrelevant":
         key = rng.choice(IRRELEVANT)
     elif kind == "added":
@@ -1081,7 +1512,7 @@ def order_label(fc, seq):
     return ("alternating-" if len(seq) > 2 else "") + rel
 
 
-def make_history(rng, fc, seq, dicts, opa, rot, pool, vals):
+def make_history(rng, fc, seq, dicts, opa, rot, pool, vals, rich=False):
     """seq: the classes visited; one operation on each of seq[:-1] (starting with HOPS[opa]), then all four operations on
     seq[-1] (starting with HOPS[rot]), then a second instance of seq[-1] from different contents, ==, and both reprs.
     dicts: fresh | shared (two dictionary objects: one for everything, one for the second instance) |
@@ -1114,7 +1545,7 @@ def make_history(rng, fc, seq, dicts, opa, rot, pool, vals):
         if op["op"] == "inst":
             op["r"] = "ra"
         ops.append(op)
-    kind2 = rng.choice(["added", "added", "base", "irrelevant", "same"])
+    kind2 = rng.choice(["added", "added", "base", "irrelevant", "same"] + (["twin"] * 4 if rich else []))
     slots = [enc(o0)]
     if edited:
         ops.append(edit(kind2))
@@ -1131,7 +1562,7 @@ def make_history(rng, fc, seq, dicts, opa, rot, pool, vals):
     h = dict(fc)
     h.update({"hist": True, "mode": "shared" if dicts.startswith("shared") else "fresh", "dicts": dicts, "slots": slots,
               "ops": ops, "seq": list(seq), "order": order_label(fc, seq), "second": kind2,
-              "first_ops": [HOPS[opa], HOPS[rot]]})
+              "first_ops": [HOPS[opa], HOPS[rot]], "values": "rich" if rich else "json"})
     if edited:
         h["edit_plan"] = ["set", "set-and-revert", "delete-and-put-back", "none-before-last-class"][plan]
     return h
@@ -1202,11 +1633,35 @@ def make_histories(ctx):
                 for opa, rot in combos:
                     hists.append(make_history(rng, fc, seq, dicts, opa, rot, pool, vals))
                 t += 1
+    # the same families over dictionaries of rich values (tuples, namedtuples, sets, bytes, floats, big ints, user objects,
+    # 0 / 1 / True), edited with rich values and with look-alikes of what is there; a stream of its own, after the one above
+    vrng = random.Random(ctx.seed * 1000003 + 191919)
+    for fi, fc in enumerate(fams):
+        allkeys = sorted({k for c in range(len(fc["classes"])) for k in fam_keys(fc, c)})
+        pool = [full_options(vrng, allkeys, rich_val), full_options(vrng, allkeys, rich_val), gen_options(vrng, allkeys, rich_val)]
+        pool = pool[:2] + pool[:2] + pool
+        vals = [rich_val(vrng) for _ in range(3)]
+        seqs = family_sequences(fc, thorough, fi + ctx.seed)
+        for qi, seq in enumerate(seqs):
+            for mi, dicts in enumerate(modes):
+                if not thorough and (qi + mi + fi + ctx.seed) % 4:
+                    continue
+                opa, rot = deck[t % 16]
+                hists.append(make_history(vrng, fc, seq, dicts, opa, rot, pool, vals, rich=True))
+                t += 1
     return fams, hists
 
 
 def hist_model_members(fc, c):
-    return [[n, s] for n, (s, _) in fam_flatten(fc, c).items()]
+    return [[n, model_spec(s)] for n, (s, _) in fam_flatten(fc, c).items()]
+
+
+def hist_outside_model(fc, res, c, a, b):
+    if "_outside" not in res:        # per dictionary contents / per class, computed once per result
+        res["_outside"] = ([outside_model(sn) for sn in res["snaps"]],
+                           [any(spec_outside_model(s) for s, _ in fam_flatten(fc, ci).values()) for ci in range(len(fc["classes"]))])
+    so, co = res["_outside"]
+    return so[a] or so[b] or co[c]
 
 
 def hist_model_requests(fc, res):
@@ -1219,6 +1674,8 @@ def hist_model_requests(fc, res):
             reqs.append((st["c"], st["si"], st["sib"]) if st["c"] == st.get("cb") and st.get("sib") is not None else None)
         else:
             reqs.append((st["c"], st["si"], st["si"]))
+        if reqs[-1] is not None and hist_outside_model(fc, res, *reqs[-1]):
+            reqs[-1] = None          # values the model cannot represent: the property oracle alone judges the step
     return reqs
 
 
@@ -1228,8 +1685,9 @@ def hist_model_line(fc, res, req):
                        "o1": res["snaps"][a], "o2": res["snaps"][b]}, sort_keys=True)
 
 
-def hist_check(fc, res, model_of=None):
-    """-> (problems, model_disagreements); a problem is (step, oracle, text).  `model_of(line) -> model output or None`"""
+def hist_check(fc, res, model_of=None, notes=None):
+    """-> (problems, model_disagreements); a problem is (step, oracle, text).  `model_of(line) -> model output or None`;
+    `notes` collects the steps where a dataset member's attribute was left unjudged (cache look-alikes, see below)"""
     if "runner_error" in res:
         return [(None, "runner", "runner error: " + res["runner_error"])], []
     problems, disagreements = [], []
@@ -1261,16 +1719,25 @@ def hist_check(fc, res, model_of=None):
         R = restricted(c, si)
         if R is None or r is None:
             return
-        shown = None
-        head = cname(c) + "("
-        if r.startswith(head) and r.endswith(")"):
-            try:
-                shown = ast.literal_eval(r[len(head):-1])
-            except Exception:
-                shown = None
-        if shown is None or shown != R:
+        shown = shown_options(r, cname(c))
+        if shown is None or not same(shown, R):
             problems.append((i, "property", f"{what} is {r!r}; the options restricted to the keys of {cname(c)}'s own members "
                                             f"({union_keys(c, si)}) are {R!r}"))
+
+    # A @dataset's cache files results under the JSON text of the options it reads: contents that differ only in
+    # tuple-versus-list (namedtuple-versus-list) share an entry.  That is a matter of the cache (assumption "dataset caches
+    # are value-transparent"), observed and recorded, not judged here: when another dictionary of this history has the same
+    # JSON text as the step's, the attributes of dataset members are left out of the comparisons of that step.
+    jsonish = [json.dumps(canon_wire(jsonish_wire(sn))) for sn in res["snaps"]]
+    shares_cache_entry = [jsonish.count(x) > 1 for x in jsonish]
+    exempt_steps = []
+
+    def without_ds(c, si, out):
+        """an instantiation outcome without the attributes of dataset members, when the step's contents share a cache entry"""
+        if si is None or not shares_cache_entry[si] or not isinstance(out, dict) or "attrs" not in out:
+            return out
+        dsn = {n for n, (s, _) in fam_flatten(fc, c).items() if s["k"] == "ds"}
+        return dict(out, attrs=[[n, v] for n, v in out["attrs"] if n not in dsn])
 
     for i, (op, st) in enumerate(zip(ops, res["steps"])):
         k = st["k"]
@@ -1282,6 +1749,9 @@ def hist_check(fc, res, model_of=None):
         call = {"keys": "%s.keys(o)", "explain": "%s.explain(o)", "validate": "%s.validate(o)", "inst": "%s(o)",
                 "repr": "repr of the %s instance", "eq": "== of two %s instances"}[k] % cname(c)
         got, ref = st["got"], st["ref"]
+        if k == "inst" and got != ref and without_ds(c, st["si"], got) == without_ds(c, st["si"], ref):
+            exempt_steps.append(i)
+            got, ref = without_ds(c, st["si"], got), without_ds(c, st["si"], ref)
         # 1. history independence
         if got != ref:
             problems.append((i, "history", f"step {i}: {call} gives {json.dumps(got)} at this point of the history, but "
@@ -1312,7 +1782,7 @@ def hist_check(fc, res, model_of=None):
                     if s["k"] == "const":
                         if attrs.get(n) != s["v"]:
                             problems.append((i, "property", f"step {i}: plain member {n} of {call} is {attrs.get(n)}, constant is {s['v']}"))
-                    elif not n.startswith("__"):
+                    elif not n.startswith("__") and not (i in exempt_steps and n not in attrs):
                         ev = evs[vis.index(n)]
                         if is_err(ev) or attrs.get(n) != ev["ok"]:
                             problems.append((i, "property", f"step {i}: attribute {n} of {call} is {attrs.get(n)}, member evaluates to {ev}"))
@@ -1346,9 +1816,25 @@ def hist_check(fc, res, model_of=None):
             else:
                 mg = m[{"keys": "keys1", "explain": "explain1", "validate": "validate1", "inst": "i1"}[k]]
                 ig = got
-            if mg != ig:
+            if i in exempt_steps:           # the same attributes are left out of the model's answer
+                mg = without_ds(c, st["si"], mg)
+            if mg != model_view(ig):
                 disagreements.append((i, f"step {i}: {call}: implementation {json.dumps(ig)}, model {json.dumps(mg)}"))
+    if notes is not None:
+        notes.extend(exempt_steps)
     return problems, disagreements
+
+
+def jsonish_wire(j):
+    """a wire value as the JSON text of the options would have it: tuples and namedtuples are arrays"""
+    if isinstance(j, dict):
+        if "nt" in j:
+            return {"l": [jsonish_wire(x) for x in j["nt"][1]]}
+        if "t" in j or "l" in j:
+            return {"l": [jsonish_wire(x) for x in j.get("t", j.get("l"))]}
+        if "d" in j:
+            return {"d": [[k, jsonish_wire(x)] for k, x in j["d"]]}
+    return j
 
 
 def hist_shrink_candidates(h):
@@ -1428,7 +1914,8 @@ def replay_history(ctx, payload) -> int:
         return 2
     lines = sorted({hist_model_line(h, res, q) for q in hist_model_requests(h, res) if q is not None})
     mout = dict(zip(lines, [json.loads(l) for l in run_driver("drv_dsclass", lines)])) if lines else {}
-    problems, disagreements = hist_check(h, res, mout.get)
+    notes = []
+    problems, disagreements = hist_check(h, res, mout.get, notes)
     print("family   :", h.get("name"), "(build: %s)" % h.get("build"))
     for i, cl in enumerate(h["classes"]):
         par = "" if cl["parent"] is None else "(%s)" % h["classes"][cl["parent"]]["name"]
@@ -1449,6 +1936,11 @@ def replay_history(ctx, payload) -> int:
         if "got" in st:
             print("   here  :", json.dumps(st["got"], sort_keys=True))
             print("   first :", json.dumps(st["ref"], sort_keys=True), " (same operation first thing on a fresh family, fresh dictionary)")
+    for i in notes:
+        print("NOTE     : step %d: the attributes of dataset members are not judged (another dictionary of this history has the "
+              "same JSON text, and a @dataset's cache files results under it)" % i)
+    if any(q is None and st.get("si") is not None and st["k"] not in ("set", "del") for q, st in zip(reqs, res["steps"])):
+        print("NOTE     : steps over dictionaries holding values the model cannot represent are judged by the property oracle alone")
     for _, orc, p in problems:
         print(("HISTORY  :" if orc == "history" else "PROPERTY :"), p)
     for _, p in disagreements:
@@ -1486,29 +1978,98 @@ def make_cases(ctx):
     n_exh = len(cases) - n_corpus
     for n in range(n_random):
         cases.append(gen_case(rng, n))
-    return cases, n_corpus, n_exh, n_random
+    # value kinds (after the streams above, which stay as they were): the directed family, then random classes over
+    # dictionaries of rich values - a stream of its own
+    directed = value_cases(ctx.seed)
+    cases += directed
+    vrng = random.Random(ctx.seed * 1000003 + 1919)
+    n_vrandom = 4000 if ctx.tier == "thorough" else 150
+    for n in range(n_vrandom):
+        c = gen_case(vrng, n, rich_val)
+        c["kind"] = "value-random:" + c["kind"]
+        cases.append(c)
+    return cases, n_corpus, n_exh, n_random, len(directed), n_vrandom
 
 
 def known_ids():
     return {e.get("id") for e in known_findings().get("known", []) if isinstance(e, dict)}
 
 
+class ValueStats:
+    """per value kind: dictionaries generated holding it under a key the class reports (plain / dotted), instances built,
+    pairs whose == was decided, how the oracle's verdicts split"""
+
+    def __init__(self):
+        self.kind = {}
+        self.pairs = Counter()
+        self.placements = Counter()
+        self.outside = self.failing = 0
+
+    def slot(self, k):
+        return self.kind.setdefault(k, Counter())
+
+    def see(self, case, res, outside, failed):
+        self.outside += outside
+        self.failing += failed
+        obs = res["obs"]
+        both = not is_err(obs["i1"]) and not is_err(obs["i2"]) and obs["eq"] is not None
+        seen = set()
+        for j in ("1", "2"):
+            ks = obs["keys" + j] if isinstance(obs["keys" + j], list) else []
+            o = dec(case["o" + j])
+            for key in ks:
+                v = get_nested(o, key)
+                if v is KeyError:
+                    continue
+                for k in kinds_in(enc(v)):
+                    c = self.slot(k)
+                    c["under_dotted_key" if "." in key else "under_plain_key"] += 1
+                    if not is_err(obs["i" + j]):
+                        c["repr_decided"] += 1
+                    seen.add(k)
+        for k in seen:
+            c = self.slot(k)
+            c["pairs"] += 1
+            if both:
+                c["eq_decided"] += 1
+                c["eq_true" if obs["eq"] else "eq_false"] += 1
+        if str(case.get("kind", "")).startswith("value:"):
+            self.placements[case.get("placement", "?")] += 1
+            if both:
+                self.pairs["%s vs %s: %s" % (case["pair"][0], case["pair"][1], "equal" if obs["eq"] else "different")] += 1
+
+    def report(self, n_directed, n_random, hcov):
+        return {
+            "what": "per kind of value: how many dictionaries held it under a key the class reported (plain / dotted key), for "
+                    "how many of those the instance was built (repr decided), in how many pairs (eq decided, with the verdicts)",
+            "directed_cases": n_directed, "random_cases_over_rich_values": n_random,
+            "directed_placements": dict(sorted(self.placements.items())),
+            "directed_pairs_decided": dict(sorted(self.pairs.items())),
+            "per_kind_in_cases": {k: dict(sorted(c.items())) for k, c in sorted(self.kind.items())},
+            "per_kind_in_history_dictionaries": hcov["value_kinds"],
+        }
+
+
 def explore(ctx: Ctx) -> Exploration:
-    cases, n_corpus, n_exh, n_random = make_cases(ctx)
+    cases, n_corpus, n_exh, n_random, n_vdirected, n_vrandom = make_cases(ctx)
     fams, hists = make_histories(ctx)
     # one implementation process and one model process for the cases and the histories together
     impl_all = run_impl(cases + hists)
     impl, himpl = impl_all[:len(cases)], impl_all[len(cases):]
     hlines = sorted({hist_model_line(h, r, q) for h, r in zip(hists, himpl) if "runner_error" not in r
                      for q in hist_model_requests(h, r) if q is not None})
-    mlines = run_driver("drv_dsclass", [model_line(c) for c in cases] + hlines)
-    if len(mlines) != len(cases) + len(hlines):
-        raise Infra(f"driver produced {len(mlines)} lines for {len(cases) + len(hlines)} cases")
-    model = [json.loads(l) for l in mlines[:len(cases)]]
-    hmodel = dict(zip(hlines, (json.loads(l) for l in mlines[len(cases):])))
+    inside = [n for n, c in enumerate(cases) if not case_outside_model(c)]
+    mlines = run_driver("drv_dsclass", [model_line(cases[n]) for n in inside] + hlines)
+    if len(mlines) != len(inside) + len(hlines):
+        raise Infra(f"driver produced {len(mlines)} lines for {len(inside) + len(hlines)} cases")
+    model = [None] * len(cases)          # None: the case holds values outside the model; the property oracle alone judges it
+    for n, l in zip(inside, mlines):
+        model[n] = json.loads(l)
+    hmodel = dict(zip(hlines, (json.loads(l) for l in mlines[len(inside):])))
     findings = []
     hcov = explore_histories(ctx, fams, hists, himpl, hmodel, findings)
     corr, orc = [], []
+    vstats = ValueStats()
     dist = Counter()
     errs = Counter()
     distinct = set()
@@ -1518,14 +2079,15 @@ def explore(ctx: Ctx) -> Exploration:
             findings.append(Finding("translator", "implementation runner could not build the case: " + i["runner_error"],
                                     {"case": c}))
             continue
-        if "driver_error" in m:
+        if m is not None and "driver_error" in m:
             findings.append(Finding("translator", "driver rejected the case: " + m["driver_error"], {"case": c}))
             continue
-        if i["obs"] != m:
+        if m is not None and model_view(i["obs"]) != m:
             corr.append((c, i, m))
         probs = oracle(c, i)
         if probs:
             orc.append((c, i, probs))
+        vstats.see(c, i, m is None, bool(probs))
         # statistics
         for _, s in flatten(c):
             dist["member:" + s["k"] + (":default" if "d" in s else "")] += 1
@@ -1547,11 +2109,11 @@ def explore(ctx: Ctx) -> Exploration:
     for c, i, m in corr[:3]:
         small = shrink(c, corr_failing)
         si, sm = run_impl([small])[0], run_model([small])[0]
-        diff = sorted(k for k in sm if si["obs"].get(k) != sm.get(k))
+        diff = sorted(k for k in sm if model_view(si["obs"]).get(k) != sm.get(k))
         findings.append(Finding("correspondence", f"model and implementation disagree on {diff}",
                                 {"case": small, "impl": si.get("obs"), "model": sm, "original_case": c}))
     for c, i, m in corr[3:20]:
-        diff = sorted(k for k in m if i["obs"].get(k) != m.get(k))
+        diff = sorted(k for k in m if model_view(i["obs"]).get(k) != m.get(k))
         findings.append(Finding("correspondence", f"model and implementation disagree on {diff}",
                                 {"case": c, "impl": i["obs"], "model": m}))
     for n, (c, i, probs) in enumerate(orc[:20]):
@@ -1576,7 +2138,28 @@ def explore(ctx: Ctx) -> Exploration:
         "programs": len({json.dumps([flatten(c), c["build"], c["inherit"], bool(c["base"])], sort_keys=True) for c in cases}),
         "distinct_nontrivial": len(distinct),
         "rule": "distinct (members, o1, o2) where both instances were built and a nested (dotted) key is reported",
-        "disagreements_checked": len(cases),
+        "disagreements_checked": len(inside),
+        "value_kinds": vstats.report(n_vdirected, n_vrandom, hcov),
+        "values_outside_the_model": {
+            "kinds": list(OUTSIDE_KINDS),
+            "what": "tuples, namedtuples, sets, frozensets, bytes, floats, ints beyond 2**53, user objects and the ints 0 / 1 "
+                    "(Python's True == 1 == 1.0) have no counterpart in LabreaModel/Value.lean (one sequence type, integers, "
+                    "no cross-type equality); a case or history step whose dictionaries / defaults hold one is not sent to "
+                    "drv_dsclass and is judged by the property oracle alone: repr(instance) read back must be the options "
+                    "restricted to the reported keys with the same types throughout, a == b must be Python's == on the "
+                    "two restricted dictionaries, and later edits of the caller's values change neither",
+            "cases": len(cases) - len(inside), "cases_with_model": len(inside),
+            "history_steps": hcov["steps_outside_the_model"], "history_steps_with_model": hcov["steps_with_model"],
+        },
+        "observed_outside_this_property": [
+            "a @dataset's cache identifies option values that serialise to the same JSON: d({'W': (1, 5)}) followed by "
+            "d({'W': [1, 5]}) returns the tuple-holding result for the list (a cache matter, assumption 'dataset caches are "
+            "value-transparent'); history steps where this shows in a dataset member's attribute are counted under "
+            "histories.cache_lookalike_steps and not judged",
+            "a @dataset member cannot be evaluated at all when a key it reads holds a set / frozenset / bytes / user object "
+            "(TypeError: not JSON serializable, from the cache key); such instances fail to build, consistently with the member "
+            "asked alone, so they decide nothing about repr / ==",
+        ],
         "correspondence_disagreements": len(corr) + hcov["model_disagreements"],
         "oracle_failures": len(orc) + hcov["failing"],
         "corpus": n_corpus, "exhaustive_cases": n_exh, "random": n_random,
@@ -1593,13 +2176,40 @@ def explore_histories(ctx, fams, hists, himpl, hmodel, findings):
     dist = Counter()
     pairs = {}
     distinct = set()
-    n_ops = n_edits = n_refs = n_err = 0
+    n_ops = n_edits = n_refs = n_err = n_exempt = n_outside = n_inside = 0
+    cache_sample = None
+    vk = {}
     for h, r in zip(hists, himpl):
         if "runner_error" in r:
             findings.append(Finding("translator", "implementation runner could not run the history: " + r["runner_error"],
                                     {"history": h}))
             continue
-        problems, disagreements = hist_check(h, r, hmodel.get)
+        notes = []
+        problems, disagreements = hist_check(h, r, hmodel.get, notes)
+        n_exempt += len(notes)
+        if notes and cache_sample is None:
+            cache_sample = {"family": h["name"], "step": notes[0], "operation": h["ops"][notes[0]],
+                            "here": r["steps"][notes[0]]["got"], "first_thing_on_a_fresh_family": r["steps"][notes[0]]["ref"]}
+        reqs = hist_model_requests(h, r)
+        for st, q in zip(r["steps"], reqs):
+            if st["k"] not in ("set", "del") and st.get("si") is not None:
+                if q is None and not (st["k"] == "eq" and st.get("cb") != st["c"]):
+                    n_outside += 1
+                elif q is not None:
+                    n_inside += 1
+        dist["values:" + h.get("values", "json")] += 1
+        read = sorted({key for c_ in {o["c"] for o in h["ops"] if "c" in o} for key in fam_keys(h, c_)})
+        for sn in r["snaps"]:
+            content = dec(sn)
+            for key in read:
+                v = get_nested(content, key)
+                if v is not KeyError:
+                    for kk in kinds_in(enc(v)):
+                        vk.setdefault(kk, Counter())["under_dotted_key" if "." in key else "under_plain_key"] += 1
+        for st in r["steps"]:
+            if st["k"] == "eq" and st.get("got") is not None and st.get("si") is not None and st.get("sib") is not None:
+                for kk in set(kinds_in(r["snaps"][st["si"]])) | set(kinds_in(r["snaps"][st["sib"]])):
+                    vk.setdefault(kk, Counter())["eq_steps_over_dictionaries_holding_it"] += 1
         if problems:
             bad.append((h, r, problems))
         elif disagreements:
@@ -1656,6 +2266,9 @@ def explore_histories(ctx, fams, hists, himpl, hmodel, findings):
                 "compared instances",
         "first_operation_pairs_covered": {m: "%d/16" % len(v) for m, v in sorted(pairs.items())},
         "failing": len(bad), "model_disagreements": len(corr),
+        "steps_with_model": n_inside, "steps_outside_the_model": n_outside,
+        "cache_lookalike_steps": n_exempt, "cache_lookalike_sample": cache_sample,
+        "value_kinds": {k: dict(sorted(c.items())) for k, c in sorted(vk.items())},
         "distribution": dict(sorted(dist.items())),
         "sample": sample,
     }
@@ -1664,7 +2277,7 @@ def explore_histories(ctx, fams, hists, himpl, hmodel, findings):
 def failing_input_search(ctx, why):
     """larger random budget, oracle only"""
     rng = random.Random(ctx.seed + 7919)
-    cases = [gen_case(rng, n) for n in range(6000)]
+    cases = [gen_case(rng, n) for n in range(6000)] + [gen_case(rng, n, rich_val) for n in range(2000)]
     impl = run_impl(cases)
     out = []
     for c, i in zip(cases, impl):
@@ -1688,6 +2301,9 @@ def replay(ctx, payload) -> int:
         print("cannot build drv_dsclass:", err[-500:])
         return 2
     i, m = run_impl([case])[0], run_model([case])[0]
+    if m is None:
+        print("note     : the dictionaries hold values the model cannot represent (%s): judged by the property oracle alone"
+              % ", ".join(sorted(k for k in (kinds_in(case["o1"]) + kinds_in(case["o2"])) if k in OUTSIDE_KINDS)))
     print("case     :", json.dumps(case))
     print("members  :", flatten(case))
     print("o1       :", dec(case["o1"]))
@@ -1695,11 +2311,11 @@ def replay(ctx, payload) -> int:
     print("impl     :", json.dumps(i.get("obs"), sort_keys=True))
     print("model    :", json.dumps(m, sort_keys=True))
     probs = oracle(case, i)
-    agree = i.get("obs") == m
+    agree = m is None or model_view(i.get("obs")) == m
     for p in probs:
         print("PROPERTY :", p)
     if not agree:
-        print("DIFFERS  :", sorted(k for k in m if i.get("obs", {}).get(k) != m.get(k)))
+        print("DIFFERS  :", sorted(k for k in m if model_view(i.get("obs", {})).get(k) != m.get(k)))
     cid = classify(payload)
     if cid:
         print("classify :", cid)
